@@ -57,6 +57,10 @@ def main():
             os.remove(os.path.join(wt, b))
         sh(f"git apply /tmp/wtc/{sid}.applied.diff", wt)
         if not quick:
+            # the suite has load-sensitive tests (10 s server start-up, 15 s sequencing timeout): wait for a quiet machine
+            for _ in range(240):
+                if os.getloadavg()[0] < 6: break
+                time.sleep(30)
             t = time.time()
             rc3, out3 = sh("go test -vet=off -count=1 -timeout 40m ./... 2>&1 | grep -v '^ok\\|no test files' | head -60", wt, 3600)
             fails = [l for l in out3.splitlines() if l.startswith("--- FAIL") or l.startswith("FAIL")]
@@ -67,7 +71,12 @@ def main():
                 pk = sorted({l.split("\t")[1] for l in real if l.startswith("FAIL\t") and "\t" in l})
                 still = []
                 for p in pk:
-                    rcx, outx = sh(f"go test -vet=off -count=1 -timeout 40m {p} 2>&1 | tail -15", wt, 3600)
+                    for attempt in range(3):
+                        for _ in range(240):
+                            if os.getloadavg()[0] < 6: break
+                            time.sleep(30)
+                        rcx, outx = sh(f"go test -vet=off -count=1 -timeout 40m {p} 2>&1 | tail -15", wt, 3600)
+                        if "FAIL" not in outx: break
                     if "FAIL" in outx: still.append(p + ": " + outx[-300:].replace("\n", " | "))
                 log.append(f"retry alone: still failing: {still}")
                 if still:
